@@ -1,6 +1,8 @@
 package main
 
 import (
+	"bufio"
+	"encoding/json"
 	"flag"
 	"fmt"
 	"os"
@@ -9,6 +11,41 @@ import (
 )
 
 func init() {
+	register("gated-hist", func(args []string) int {
+		fs := flag.NewFlagSet("gated-hist", flag.ExitOnError)
+		seed := fs.Int64("seed", 1, "seed")
+		n := fs.Int("n", 100, "histories")
+		e := fs.Int("e", 2, "expiration in clock units")
+		broker := fs.Bool("broker", true, "configure a Broker")
+		hist := fs.String("hist", "", "ndjson output")
+		out := fs.String("out", "-", "report")
+		fs.Parse(args)
+		f, err := os.Create(*hist)
+		if err != nil {
+			fmt.Fprintln(os.Stderr, err)
+			return 2
+		}
+		defer f.Close()
+		bw := bufio.NewWriter(f)
+		defer bw.Flush()
+		ops := 0
+		var panics []string
+		for i := 1; i <= *n; i++ {
+			h, p := gatedrep.RunGatedHistory(i, *seed*100003+int64(i), *broker, *e)
+			if p != "" {
+				panics = append(panics, p)
+			}
+			b, _ := json.Marshal(h)
+			bw.Write(b)
+			bw.WriteByte('\n')
+			ops += len(h.H) / 2
+		}
+		if panics == nil {
+			panics = []string{}
+		}
+		writeJSON(*out, map[string]interface{}{"histories": *n, "ops": ops, "panics": panics})
+		return 0
+	})
 	register("gated-replay", func(args []string) int {
 		fs := flag.NewFlagSet("gated-replay", flag.ExitOnError)
 		cfgPath := fs.String("cfg", "", "config json")
